@@ -281,6 +281,15 @@ def d12_3(ctx):
                 k = d.terms[chunk_len] * (1 if isinstance(x.op, ast.Add) else -1)
                 li = Lin(li.const, {("<len0>" if t == f"len({buf})" else t): c_ for t, c_ in li.terms.items()})
                 sub[v] = li + Lin(0, {"<G>": k})
+        # locals that are bound once, before the loop, to a linear combination of other names (e.g. `frame_len = HEADER_SIZE +
+        # data_len`) stand for their definition in the loop test
+        for y in walk(fn):
+            if isinstance(y, ast.Assign) and len(y.targets) == 1 and isinstance(y.targets[0], ast.Name) and y.lineno < lp.lineno and y.targets[0].id not in sub and y.targets[0].id not in (buf, len_var):
+                nm = y.targets[0].id
+                stores = [z for z in walk(fn) if isinstance(z, ast.Name) and isinstance(z.ctx, ast.Store) and z.id == nm]
+                ly = lin(y.value, fold)
+                if len(stores) == 1 and ly is not None and not any(t.startswith("len(") for t in ly.terms):
+                    sub[nm] = ly
         c = cmp_norm(lp.test, fold, subst=sub)
         if c is None or c[0] != "<=0":
             continue
